@@ -856,7 +856,7 @@ func init() {
 		Level: "exploration",
 		Rule: "data sets = 1-6 samples x 20-2000 records: families of one-edit variants (stars on a root, chains, random attachment), 2-3-edit and unrelated records, repeated sequences, homopolymer runs, dense two-letter sets, counts wide / narrow (ties) / proportional to the model (ties and inversions), merged_<tag> maps or one <tag> attribute per record; contention sets = top <- 1-3 abundant variants <- 150-2500 one-error sons each; " +
 			"every data set is run through the package's own graph construction (VerifGraph, real worker pool) and through the obiclean command; oracle = brute-force graph (own one-edit test, self-checked against the Levenshtein DP) for edges / status / mutation / head flag / counts at distance 1, ratio 1, and equality of every written annotation with the 1-worker execution for workers 2..32 x repetitions x distance 1-3 x ratio {1,0.5,0.1,0.05}; race twin on the same executions. " +
-			"Added later: data sets with ambiguity codes (n, r, y: symbols like the others for the one-difference test). " +
+			"Added later: data sets with ambiguity codes (n, r, y: symbols like the others for the one-difference test). Sequences of 340 / 87000 bases whose count of one base is exactly 2^8 / 2^16, with one-difference variants on both sides of that count. " +
 			"distinct_nontrivial = distinct (sub-check, data-set kind, #samples, size class, ties planted, chain depth, star size class, attribute mode, distance, ratio, worker count) classes of executions whose graph has at least one edge",
 		Assume: []string{"sequences are non-empty, over a,c,g,t (one data set in ten or so also uses the codes n, r, y, compared as plain symbols), record identifiers are unique", "every record names at least one sample with a count >= 1",
 			"the mutation is written (father symbol)->(son symbol)@(1-based position of that symbol), '-' for the missing symbol, as the Edge fields From/To of the package say",
